@@ -901,7 +901,7 @@ class CAMTransmissionManagement:
         """
         Convert the stored path history to a list of PathPoint dicts relative
         to the current position.  Entries outside the DeltaLatitude/DeltaLongitude
-        valid range (-131071..131072) are dropped.
+        valid range (-131071..131071; 131072 means unavailable) are dropped.
         """
         current_lat = current_tpv.get("lat")
         current_lon = current_tpv.get("lon")
@@ -913,9 +913,9 @@ class CAMTransmissionManagement:
         for h_lat, h_lon, h_time_ms in reversed(self._path_history):
             delta_lat = round((h_lat - current_lat) * 10_000_000)
             delta_lon = round((h_lon - current_lon) * 10_000_000)
-            if not (-131071 <= delta_lat <= 131072):
+            if not (-131071 <= delta_lat <= 131071):
                 break
-            if not (-131071 <= delta_lon <= 131072):
+            if not (-131071 <= delta_lon <= 131071):
                 break
             delta_time_10ms = max(1, min(65534, round((now_ms - h_time_ms) / 10)))
             result.append({
